@@ -156,6 +156,10 @@ class Reader:
                 raise FlipJumpReadFjmException(
                     f"Bad .fjm file: segment data-length must be even (an integer number of ops), got {data_length}."
                 )
+            if data_length > segment_length:
+                raise FlipJumpReadFjmException(
+                    f"Bad .fjm file: segment data-length ({data_length}) exceeds the segment-length ({segment_length})."
+                )
             if data_start + data_length > len(data):
                 raise FlipJumpReadFjmException(
                     f"Bad .fjm file: segment data range [{data_start}, {data_start + data_length})"
